@@ -229,7 +229,7 @@ Proof.
   change (List.find (fun entry => e_role entry =? role) layout) with (lookup_slot role layout). rewrite L.
   assert (Hoff : 0 <= ae_class_offset (ae_find env mc)).
   { rewrite class_offset_value. unfold ae_find. pose proof (find_ge env (slice_from mc 1)). lia. }
-  rewrite (slot_bytes_spec _ env Hoff). unfold ae_too_big. replace (_ <? _) with true by lia. reflexivity.
+  rewrite (slot_bytes_spec _ env Hoff). destruct (ae_too_big _ _ _) eqn:T; [reflexivity|]. exfalso. unfold ae_too_big in T. lia.
 Qed.
 (* ... and an envelope that exactly fills its slot is accepted *)
 Theorem fitting_accepted layout st env mc role e :
@@ -242,7 +242,7 @@ Proof.
   change (List.find (fun entry => e_role entry =? role) layout) with (lookup_slot role layout). rewrite L.
   assert (Hoff : 0 <= ae_class_offset (ae_find env mc)).
   { rewrite class_offset_value. unfold ae_find. pose proof (find_ge env (slice_from mc 1)). lia. }
-  rewrite (slot_bytes_spec _ env Hoff). unfold ae_too_big. replace (_ <? _) with false by lia. rewrite M. eexists. reflexivity.
+  rewrite (slot_bytes_spec _ env Hoff). destruct (ae_too_big _ _ _) eqn:T; [exfalso; unfold ae_too_big in T; lia|]. rewrite M. eexists. reflexivity.
 Qed.
 
 (* class_offset: the searched pattern contains the class UUID at the constant distance, so at ANY position where the
@@ -338,7 +338,7 @@ Proof.
     rewrite Hsel. destruct (selected dom e) eqn:S; cbn [negb]; [|apply (IH done); assumption].
     destruct (zlookup (e_role e) (envelopes st)) as [stored|] eqn:L; [|apply (IH done); assumption].
     pose proof (Hf e stored (or_introl eq_refl) L) as Hfit.
-    unfold ih_too_big. replace (blen stored >? e_size e) with false by lia. rewrite ljust_fill.
+    destruct (ih_too_big stored (e_size e)) eqn:T; [exfalso; unfold ih_too_big in T; lia|]. rewrite ljust_fill.
     set (d := stored ++ repeat 255 (Z.to_nat (e_size e - blen stored))).
     assert (Hlen : blen d = e_size e) by (subst d; autorewrite with blen; lia).
     assert (Haddr : ih_address st e = base_address st + e_offset e) by reflexivity. rewrite Haddr.
